@@ -374,6 +374,7 @@ func (g *vcgen) instr(ins ssa.Instruction) {
 		g.setVal(x, r)
 		g.closures[g.vals[x]] = x
 		g.pureClosureAxiom(x)
+		g.closureCreated(x)
 	case *ssa.Range:
 		g.vals[x] = "0" // the iterator itself carries no value; its progress is the ghost visited-set
 		if _, ok := x.X.Type().Underlying().(*types.Map); ok {
@@ -382,6 +383,7 @@ func (g *vcgen) instr(ins ssa.Instruction) {
 			g.stateVar(vn, fmt.Sprintf("(Array %s Bool)", g.s.sortOf(mt.Key())))
 			g.set(vn, fmt.Sprintf("((as const (Array %s Bool)) false)", g.s.sortOf(mt.Key())))
 			g.rangeVis[x] = vn
+			g.emit(fmt.Sprintf("(assert (= (%s ((as const (Array %s Bool)) false)) 0))", g.cardFun(g.s.sortOf(mt.Key())), g.s.sortOf(mt.Key())))
 			// a map with a positive length has a key (skolem witness): len(m) > 0 ==> has(m, w)
 			has, _, ln := g.mapArrs(mt)
 			mv := g.val(x.X)
@@ -836,7 +838,21 @@ func (g *vcgen) next(x *ssa.Next) {
 	g.assumeType(v, mt.Elem())
 	g.assumeType(k, mt.Key())
 	g.set(vn, fmt.Sprintf("(ite %s (store %s %s true) %s)", okc, vis, k, vis))
+	// the number of visited keys: grows by one per iteration, never exceeds the length, equals it when the range ends
+	// (the map is not modified while it is being ranged over: an assumption of the visited-set model)
+	card := g.cardFun(ks)
+	_, _, lnArr := g.mapArrs(mt)
+	lenM := fmt.Sprintf("(ite (= %s 0) 0 (select %s %s))", m, g.get(g.st, lnArr), m)
+	if g.updatesMapOfType(mt) {
+		// the function itself inserts into or deletes from a map of this type: no claim about the count
+		g.assume(fmt.Sprintf("(>= (%s %s) 0)", card, vis))
+	} else {
+		g.noteAssumption("map range in " + g.u.Name + ": the map is not changed by other code while it is ranged over (visited-set model)")
+		g.assume(fmt.Sprintf("(and (>= (%s %s) 0) (=> %s (and (= (%s (store %s %s true)) (+ (%s %s) 1)) (<= (+ (%s %s) 1) %s))) (=> (not %s) (= (%s %s) %s)))",
+			card, vis, okc, card, vis, k, card, vis, card, vis, lenM, okc, card, vis, lenM))
+	}
 	g.tup[x] = []string{okc, k, v}
+	g.curRange = &rangeState{rng: rng, ok: okc, k: k, v: v, m: m, mt: mt}
 }
 
 // cellIsLocal: an Alloc of a non-struct variable that is only loaded, stored or captured by closures which this
@@ -882,6 +898,53 @@ func cellIsLocal(a *ssa.Alloc) bool {
 // stableCaptured: the captured variable behind free variable number idx of closure fn is assigned exactly once
 // (before it is captured) and is never written again by the enclosing functions or by any closure that captures it.
 // Nobody else can hold its address, so its content is fixed while fn runs.
+func (g *vcgen) updatesMapOfType(mt *types.Map) bool {
+	for _, b := range g.fn.Blocks {
+		for _, ins := range b.Instrs {
+			switch x := ins.(type) {
+			case *ssa.MapUpdate:
+				if types.Identical(x.Map.Type().Underlying(), mt) {
+					return true
+				}
+			case *ssa.Call:
+				if bi, ok := x.Call.Value.(*ssa.Builtin); ok && (bi.Name() == "delete" || bi.Name() == "clear") && len(x.Call.Args) > 0 && types.Identical(x.Call.Args[0].Type().Underlying(), mt) {
+					return true
+				}
+			}
+		}
+	}
+	return false
+}
+
+// capturedCell: free variable idx of fn is a variable of the enclosing function captured by reference (or a free
+// variable of the enclosing function that is one)
+func capturedCell(fn *ssa.Function, idx int) bool {
+	parent := fn.Parent()
+	if parent == nil {
+		return false
+	}
+	for _, b := range parent.Blocks {
+		for _, ins := range b.Instrs {
+			mc, ok := ins.(*ssa.MakeClosure)
+			if !ok || mc.Fn != fn || idx >= len(mc.Bindings) {
+				continue
+			}
+			switch x := mc.Bindings[idx].(type) {
+			case *ssa.Alloc:
+				return true
+			case *ssa.FreeVar:
+				for j, pfv := range parent.FreeVars {
+					if pfv == x {
+						return capturedCell(parent, j)
+					}
+				}
+			}
+			return false
+		}
+	}
+	return false
+}
+
 func stableCaptured(fn *ssa.Function, idx int) bool {
 	parent := fn.Parent()
 	if parent == nil {
